@@ -294,6 +294,10 @@ def emit(case, path):
             else:
                 ln = p.call("i", "hx_find_all", V("f"), op[1], op[2], op[3], Out(16 * mx), mx, 200000)
                 steps.append((i, "findall", ln))
+                if True:
+                    # the same enumeration through an access element (Hstartread + Hnextread)
+                    ln = p.call("i", "hx_nextread_all", V("f"), op[1], op[2], Out(16 * mx), mx, 200000)
+                    steps.append((i, "nextread", ln))
         elif k == "newref":
             pre_enum(i)
             ln = p.call("u", "Hnewref", V("f"))
@@ -667,6 +671,28 @@ def check(case, rr, steps, path):
                     raise Fail("Hfind returned another entry", op=what, got=[ft, fr])
                 if e.valid and e.special is False and e.len >= 0 and fl != e.len:
                     raise Fail("Hfind length differs from model", op=what, expected=e.len, observed=fl)
+        elif role == "nextread":
+            stag, sref = op[1], op[2]
+            n = r.ret
+            if n == -2:
+                raise Fail("Hnextread enumeration does not terminate", op=what)
+            ents = entries_from(r.bufs[0], max(0, min(n, len(r.bufs[0]) // 16)))
+            seen_nr = set()
+            for (tag, ref, off, ln_) in ents:
+                bt = h4fmt.base_tag(tag)
+                if (bt, ref) in seen_nr:
+                    raise Fail("Hnextread visits an element twice", op=what, entry=[bt, ref])
+                seen_nr.add((bt, ref))
+                if (stag != WILD and bt != stag) or (sref != WILD and ref != sref):
+                    raise Fail("Hnextread returned a non-matching element", op=what, entry=[tag, ref])
+                if bt in TAGS and (bt, ref) not in m.d:
+                    raise Fail("Hnextread reports an object nobody created", op=what, entry=[tag, ref])
+            must = {k for k, e in m.d.items() if (stag == WILD or k[0] == stag) and (sref == WILD or k[1] == sref)
+                    and e.valid and not e.special and e.len > 0}
+            if not must <= seen_nr:
+                raise Fail("Hstartread/Hnextread enumeration misses live elements", op=what,
+                           missing=sorted(must - seen_nr)[:8], visited=len(seen_nr))
+            labels.add("nextread_enum")
         elif role in ("digest", "findall", "final_findall1", "final_findall2", "pre_enum"):
             if role == "findall":
                 stag, sref = op[1], op[2]
